@@ -83,10 +83,8 @@ func (v Version) IvLabel() []byte {
 }
 
 func (v Version) InitialSecretLabel() []byte {
-	switch v {
-	case Version_V2:
-		return []byte("quicv2 client in")
-	default:
-		return []byte("client in")
-	}
+	// RFC 9369 section 3.3.2 only renames the key, iv, hp and ku labels for
+	// QUIC v2; the client/server initial secret labels stay "client in" /
+	// "server in" (see the test vectors in its appendix A).
+	return []byte("client in")
 }
